@@ -110,9 +110,15 @@ def rand_cp(rng, no_brace=False):
         return c
 
 
+LATIN1 = [0xE9, 0xEF, 0xFC, 0xF1, 0xE7, 0xB0, 0xB1, 0xD7, 0x80, 0xFF, 0xA0, 0x61, 0x66, 0x20]
+
+
 def rand_text(rng, n, no_brace=False):
     style = rng.random()
-    if style < 0.15:
+    if style < 0.12:
+        # texts of the Latin-1 supplement and ASCII only (two-byte characters, none above U+00FF)
+        return [rng.choice(LATIN1) for _ in range(n)]
+    if style < 0.2:
         return [rng.choice(ASCII) for _ in range(n)]
     if style < 0.3:
         return [rng.choice(CJK) for _ in range(n)]
